@@ -115,6 +115,7 @@ func run(rc *runConfig) int {
 		}
 		covers = append(covers, x.covers...)
 	}
+	obls = append(obls, prog.census(rc.prop)...)
 	smtDir := filepath.Join(rc.outDir, "smt", rc.prop)
 	os.RemoveAll(smtDir)
 	thorough := rc.tier == "thorough"
